@@ -355,6 +355,10 @@ class Interp(object):
             yield from self.x_reenter(op, env)
         elif k == "plain_gen":
             self.x_plain_gen(op, env)
+        elif k == "xreg":
+            # an exception extractor registered in the middle of the run
+            self.rc.setup_extractors([[op["cls"], op["mode"]]])
+            self.rc.probe("extractor_registered_midrun")
         else:
             h = self.rc.custom_ops.get(k)
             if h is None:
@@ -433,9 +437,27 @@ class Interp(object):
         rc = self.rc
         if not env.stack:
             return
-        node, a = env.stack[-1]
-        rc.probe("reenter")
+        # the action entered again: the current one (up=0) or an enclosing one that is still open
+        # (in the ASYNC world sibling tasks share their inherited ancestors, so several tasks can be
+        # inside the same Action's context()/run() at once and leave it in any order)
+        up = op.get("up", 0)
+        idx = 0 if up == 9 else len(env.stack) - 1 - (up % len(env.stack))
+        node, a = env.stack[idx]
+        rc.probe("reenter" if idx == len(env.stack) - 1 else "reenter_ancestor")
+        inside = rc.info.setdefault("inside_ctx", {})
+        who = rc.actor_name()
+        others = [w for w in inside.get(id(node), ()) if w != who]
+        if others:
+            rc.probe("same_action_context_entered_by_two_tasks")
+        inside.setdefault(id(node), []).append(who)
         holder = Holder()
+        try:
+            yield from self._reenter_body(op, env, node, a, holder)
+        finally:
+            inside[id(node)].remove(who)
+
+    def _reenter_body(self, op, env, node, a, holder):
+        rc = self.rc
         if op["how"] == "context":
             cm = self.api(("ctx", node.nid), a.context)
             self.api(("enter", node.nid), cm.__enter__)
@@ -860,8 +882,18 @@ class Interp(object):
                     rc.fail("preserve_result", "preserved callable returned %r (ran=%r)" % (r, ran))
                     raise Unwind()
 
-            act = s.spawn(name, lambda: self.actor_wrap(thread_fn, name))
-            pending.append(act)
+            how = op.get("how", "thread")
+            if how == "inline":
+                rc.probe("preserve_inline")
+                thread_fn()
+            elif how == "copyctx":
+                rc.probe("preserve_copied_context")
+                ctx = contextvars.copy_context()
+                act = s.spawn(name, lambda: self.actor_wrap(lambda: ctx.run(thread_fn), name))
+                pending.append(act)
+            else:
+                act = s.spawn(name, lambda: self.actor_wrap(thread_fn, name))
+                pending.append(act)
         elif kind == "remote":
             if parent is None:
                 child_env = Env()
